@@ -60,5 +60,6 @@ Contract(
             _CONS("dd", "region_lookup", "region_lookup.shape[0]"),
             "all(old(region_lookup[i]) == 0 or dd[i] == dd[old(region_lookup[i])] for i in range(0, L0))"),
     ], decreases="upper_region")},
+    options={"select_patterns": True},
     props=("C15",), native={"skip": True},
 )
